@@ -92,18 +92,26 @@ def main():
             if r["error"]:
                 broken.append("E1 %s: %s" % (label, r["error"])); continue
             cmds.append(r["cmd"])
-            mine = lambda e: e["id"].startswith(prop + ".")
-            decl = [e for e in r["declared"] if mine(e)]
-            resid = [e for e in r["residual"] if mine(e)]
-            negd = [e for e in r["negctl_declared"] if mine(e)]
-            negr = [e for e in r["negctl_residual"] if mine(e)]
+            # an obligation id may name several properties ("C04.x|C02.y"): it counts for each of them under its own part
+            def mine_list(lst):
+                out = []
+                for e in lst:
+                    for part in e["id"].split("|"):
+                        if part.startswith(prop + "."):
+                            e2 = dict(e); e2["id"] = part; e2["full_id"] = e["id"]; out.append(e2); break
+                return out
+            decl = mine_list(r["declared"])
+            resid = mine_list(r["residual"])
+            negd = mine_list(r["negctl_declared"])
+            negr = mine_list(r["negctl_residual"])
             fkey = "E1|%s|%s|%s" % (label, prop, tier)
-            new_floors[fkey] = len(decl)
+            n_distinct_decl = len(set((e["func"], e["id"], tuple(e["ints"])) for e in decl))
+            new_floors[fkey] = n_distinct_decl
             floor = floors.get(fkey)
             if floor is None and not args.freeze_floors:
                 broken.append("E1 %s: no floor recorded for %s/%s" % (label, prop, tier))
-            elif floor is not None and len(decl) < floor:
-                broken.append("E1 %s: %d reachable obligations < floor %d (obligation points became unreachable or vanished)" % (label, len(decl), floor))
+            elif floor is not None and n_distinct_decl < floor:
+                broken.append("E1 %s: %d reachable distinct obligations < floor %d (obligation points became unreachable or vanished)" % (label, n_distinct_decl, floor))
             if negd and len(negr) < len(set((e['func'], e['id'], tuple(e['ints'])) for e in negd)):
                 broken.append("E1 %s: a negative control was discharged (prover vacuous: UB or contradictory ASSUME on the path)" % label)
             if any(e["id"] == "?" for e in r["residual"]) :
